@@ -197,6 +197,9 @@ def build_variant(expr, mask, consts, ws):
         gdecls.append(Decl(ty, False, 'gval', copy.deepcopy(e)))
         gshown = Var('gval', t=ty)
         body.append(ExprStmt(Call('writeln', [Is(gshown, INT, t=INT) if ty == BYTE else gshown], t=EMPTY)))
+    # a loop without break whose condition is the tree (a constant-false condition makes it dead code, never an infinite loop);
+    # its body returns, so a true condition ends the run after one iteration
+    loop_stmt = While(copy.deepcopy(e), Block([ExprStmt(Call('write', [Lit('char', 76, None, t=BYTE)], t=EMPTY)), Return(None)]))
     if ty != BOOL:
         # last (it may fault): the raw value, shifted into -1..5, indexes constant data of length 5 - a string literal, a
         # const string, a const array: a folded lookup must behave like the run-time one, also just outside either end
@@ -208,6 +211,13 @@ def build_variant(expr, mask, consts, ws):
         body.append(ExprStmt(Call('write', [Is(Index(Lit('string', b'abcde', None, t=STRING), mk(), t=BYTE), INT, t=INT)], t=EMPTY)))
         body.append(ExprStmt(Call('write', [Is(Index(Var('cstr', t=STRING), mk(), t=BYTE), INT, t=INT)], t=EMPTY)))
         body.append(ExprStmt(Call('write', [Index(Var('ctab', t=cty), mk(), t=INT)], t=EMPTY)))
+        body.insert(len(body) - 3, ExprStmt(Call('write', [Lit('char', 35, None, t=BYTE)], t=EMPTY)))
+        body.insert(len(body) - 3, loop_stmt)
+        body.insert(len(body) - 3, ExprStmt(Call('write', [Lit('char', 36, None, t=BYTE)], t=EMPTY)))
+    else:
+        body.append(ExprStmt(Call('write', [Lit('char', 35, None, t=BYTE)], t=EMPTY)))
+        body.append(loop_stmt)
+        body.append(ExprStmt(Call('write', [Lit('char', 36, None, t=BYTE)], t=EMPTY)))
     prog = Program(gdecls, [Func(EMPTY, '@is_you', [Param(arr(INT, True), True, 'a')], Block(body))])
     return prog, [argv]
 
